@@ -98,3 +98,36 @@ def min_images(L, d_frac, tol=1e-9, extra=1):
     ln = np.linalg.norm(v, axis=1)
     m = ln.min()
     return g + base, v, ln, m
+
+
+def pair_reduce(L, max_iter=200):
+    """Greedy pairwise (Gauss/Lagrange-type) size reduction of a basis.  Returns (Lr, U) with Lr = U @ L, U unimodular
+    integer.  Not necessarily Minkowski reduced — it only has to make the enumeration box small; correctness of the
+    minimum-image enumeration never depends on the quality of the reduction (the box bound holds for any basis)."""
+    Lr = np.array(L, float)
+    U = np.eye(3, dtype=np.int64)
+    for _ in range(max_iter):
+        changed = False
+        for i in range(3):
+            for j in range(3):
+                if i == j:
+                    continue
+                mu = int(np.rint(np.dot(Lr[i], Lr[j]) / np.dot(Lr[j], Lr[j])))
+                if mu != 0:
+                    Lr[i] -= mu * Lr[j]
+                    U[i] -= mu * U[j]
+                    changed = True
+        # also try sums/differences of three vectors (helps for obtuse cells)
+        for i in range(3):
+            for s1 in (-1, 1):
+                for s2 in (-1, 1):
+                    j, k = [x for x in range(3) if x != i]
+                    cand = Lr[i] + s1 * Lr[j] + s2 * Lr[k]
+                    if np.dot(cand, cand) < np.dot(Lr[i], Lr[i]) - 1e-12:
+                        Lr[i] = cand
+                        U[i] = U[i] + s1 * U[j] + s2 * U[k]
+                        changed = True
+        if not changed:
+            break
+    assert abs(abs(det3(U.tolist())) - 1) == 0
+    return Lr, U
